@@ -1,6 +1,6 @@
 import engine_check
 def run(ctx):
-    engine_check.run(ctx, "C02")
+    engine_check.run(ctx, "C01")
 
 def replay(j):
     return engine_check.replay(j)
